@@ -103,7 +103,18 @@ def rand_stream(rnd):
     for i in range(n):
         # mostly small frames; some large ones full of line-feed bytes (standard output is a line-buffered stream)
         psize = rnd.choice([0, 6, 16, 26, 0, 6, 16, 26, 1100, 1460])
-        payload = bytes(rnd.choice([10, 10, rnd.randrange(256)]) if psize > 1000 else rnd.randrange(256) for _ in range(psize))
+        if psize > 1000:
+            # line feeds in different places: everywhere, one early with a long run without any behind it, one in the middle
+            style = rnd.randrange(3)
+            nolf = lambda: rnd.choice([0, 1, 9, 11, 65, 255, rnd.randrange(11, 256)])
+            if style == 0:
+                payload = bytes(rnd.choice([10, 10, rnd.randrange(256)]) for _ in range(psize))
+            elif style == 1:
+                payload = bytes([nolf(), 10]) + bytes(nolf() for _ in range(psize - 2))
+            else:
+                payload = bytes(nolf() for _ in range(psize // 2)) + b"\n" + bytes(nolf() for _ in range(psize - psize // 2 - 1))
+        else:
+            payload = bytes(rnd.randrange(256) for _ in range(psize))
         ip = pcapfmt.ipv4(payload_len=len(payload), ttl=rnd.choice([9, 64, 100, 255, 1]), proto=rnd.choice([6, 17, 1]))
         et = 0x0800     # FilterMode.tla reads $2 as IPv4
         raw = pcapfmt.eth(etype=et) + ip + payload
